@@ -170,8 +170,20 @@ def run_case(case):
     fsels = field_selectors(ref.fields, tier)
     combos = []
     nlev = ref.nlev
+    if case.get('wide'):
+        # many boxes on a level: the selections that take many boxes at once (the exhaustive selector sweeps are for the small meshes)
+        fsels = [repr(ref.fields[0]), str(len(ref.fields) - 1), 'slice(None,None,None)', repr(list(range(len(ref.fields)))[::2])]
+    for lv in range(nlev if case.get('wide') else 0):
+        nb = len(ref.boxes[lv])
+        alt = [bool((i * 7 // 3) % 2) for i in range(nb)]
+        wide = ['0', str(nb - 1), str(nb // 2), 'slice(None,None,None)', 'slice(None,None,2)', 'slice(1,None,3)', 'slice(None,16,None)', 'slice(None,17,None)', 'slice(%d,None,None)' % (nb - 18),
+                'slice(None,None,-1)', repr(list(range(nb))), repr(list(range(nb))[::-1]), repr(list(range(17))), repr(list(range(0, nb, 2))), repr([(5 * i + 3) % nb for i in range(nb)]),
+                'np.arange(%d)' % nb, 'np.arange(%d)[::-1]' % nb, repr([True] * nb), repr(alt), 'np.array(%r)' % (alt,), 'np.array(%r)' % ([not a for a in alt],)]
+        for bs_ in wide:
+            for fs_ in fsels:
+                combos.append((fs_, str(lv), bs_))
     # full field selector sweep on every level with a few box selectors
-    for lv in range(nlev):
+    for lv in range(0 if case.get('wide') else nlev):
         nb = len(ref.boxes[lv])
         few = ['0', str(nb - 1), 'slice(None,None,None)', repr(list(range(nb))[::-1])]
         for fs_ in fsels:
@@ -180,7 +192,7 @@ def run_case(case):
     # full box selector sweep with a few field selectors
     fewf = [repr(ref.fields[0]), str(len(ref.fields) - 1), 'slice(None,None,None)',
             repr(list(range(len(ref.fields)))[::2])]
-    for lv in range(nlev):
+    for lv in range(0 if case.get('wide') else nlev):
         nb = len(ref.boxes[lv])
         for bs_ in box_selectors(nb, tier):
             for fs_ in fewf:
@@ -372,6 +384,10 @@ def cases():
     # ten levels refining towards the upper corner: cell indices with four digits, FAB header lines of more than 100 characters
     dm = families.deep_mesh(10, 3, corner='upper')
     out.append({'label': dm.name, 'mesh': dm, 'fields': fsets[1], 'layout': families.scatter_layouts(dm, rnd, 1), 'geom': 0})
+    # many boxes on a level (box counts beyond 16, 32 and 64: sort cut-overs, default chunk sizes, batch sizes), dealt over three files
+    for counts, fine, fields in [((7, 5), None, fsets[1]), ((5, 3, 3), 20, fsets[2])] + ([] if tier == 'quick' else [((13, 11), 70, fsets[3]), ((6, 6, 4), None, fsets[0]), ((17, 16), None, fsets[1])]):
+        gm = families.grid_mesh(counts, fine=fine)
+        out.append({'label': gm.name, 'mesh': gm, 'fields': fields, 'layout': [families.dealt_layout(n, 3, stride=1 + li) for li, n in enumerate(gm.nboxes())], 'geom': 0, 'wide': True})
     nrand = 6 if tier == 'quick' else 300
     for r in range(nrand):
         nd = rnd.choice([2, 3])
@@ -392,7 +408,7 @@ def main():
                        'word at the reference address (no arithmetic node), which covers NaN/Inf/denormal payloads',
                        'header text is what AMReX writes (generator validated against the repository assets in conformance)',
                        'box extents <= 6 cells per axis in whole-tool runs; larger shapes only through the K-read lemma']
-    rep.bounds = {'levels': '1-3', 'boxes_per_level': '1-4', 'box_extent': '1-6', 'fields': '1-5', 'files_per_level': '1-3'}
+    rep.bounds = {'levels': '1-3 (11 in the deep meshes)', 'boxes_per_level': '1-4 with every selector form; 35-45 (quick) / up to 272 (thorough) one-cell boxes with the many-box selections', 'box_extent': '1-6', 'fields': '1-5', 'files_per_level': '1-3'}
     common.run_cases(rep, run_case, cases())
     from harness import k_lemmas
     k_lemmas.run_into(rep, ['k_read'])
